@@ -7,6 +7,7 @@
 -/
 import BR.Scalar
 import BR.Gen.C15
+import BR.Model.Comms
 
 namespace BR.Driver
 
@@ -46,6 +47,61 @@ def fmtRat (r : Rat) : String := if r.den = 1 then toString r.num else s!"{r.num
 def allSome {α} (l : List (Option α)) : Option (List α) :=
   l.foldr (fun x acc => match x, acc with | some a, some as => some (a :: as) | _, _ => none) (some [])
 
+/-- session state of the stateful models -/
+structure DState where
+  comms : BR.Comms.St := BR.Comms.init []
+
+namespace CommsIO
+open BR.Comms
+
+def optNat (s : String) : Option (Option Nat) :=
+  if s = "N" then some none else s.toNat?.map some
+
+def fmtOpt : Option Nat → String
+  | none => "N"
+  | some m => toString m
+
+def fmtEv : Ev → String
+  | .send n d ok => s!"S{n}:{fmtOpt d}:{if ok then 1 else 0}"
+  | .sink h d => s!"K{h}:{fmtOpt d}"
+  | .src h => s!"R{h}"
+
+def fmtRet : Ret → String
+  | .bool true => "T"
+  | .bool false => "F"
+  | .data d => "D" ++ fmtOpt d
+  | .none => "N"
+
+def parseOp : List String → Option Op
+  | ["fwd", i, o] => do some (.fwd (← i.toNat?) (← o.toNat?))
+  | ["del", i, o] => do some (.del (← i.toNat?) (← o.toNat?))
+  | ["sink", i, h] => do some (.sink (← i.toNat?) (← optNat h))
+  | ["source", o, h] => do some (.source (← o.toNat?) (← optNat h))
+  | ["get", i] => do some (.get (← i.toNat?))
+  | ["send", n, d] => do some (.send (← n.toNat?) (← optNat d))
+  | ["spin", k] => do some (.spin (← k.toNat?))
+  | ["open", n] => do some (.opn (← n.toNat?))
+  | ["close", n] => do some (.cls (← n.toNat?))
+  | ["inject", n, d] => do some (.inject (← n.toNat?) (← optNat d))
+  | _ => none
+
+end CommsIO
+
+/-- stateful requests; `none` = not a stateful request -/
+def handleState (st : DState) (fn : String) (args : List String) : Option (DState × String) :=
+  match fn with
+  | "comms.init" => match args with
+      | [n] => match n.toNat? with
+        | some k => some ({ st with comms := BR.Comms.init (List.range k) }, "ok")
+        | none => some (st, "bad-op")
+      | _ => some (st, "bad-op")
+  | "comms.op" => match CommsIO.parseOp args with
+      | some op =>
+        let (s', r, evs) := BR.Comms.step st.comms op
+        some ({ st with comms := s' }, CommsIO.fmtRet r ++ "|" ++ ";".intercalate (evs.map CommsIO.fmtEv))
+      | none => some (st, "bad-op")
+  | _ => none
+
 open BR.Gen in
 def handle (fn : String) (args : List String) : String :=
   match fn with
@@ -65,18 +121,20 @@ def handle (fn : String) (args : List String) : String :=
       | _ => "bad-op"
   | _ => "bad-op"
 
-partial def loop (h : IO.FS.Stream) (out : IO.FS.Stream) : IO Unit := do
+partial def loop (h : IO.FS.Stream) (out : IO.FS.Stream) (st : DState) : IO Unit := do
   let line ← h.getLine
   if line.isEmpty then return ()
   let toks := (line.trimAscii.toString.splitOn " ").filter (· ≠ "")
   match toks with
-  | [] => out.putStrLn "bad-op"
-  | fn :: args => out.putStrLn (handle fn args)
-  loop h out
+  | [] => out.putStrLn "bad-op"; loop h out st
+  | fn :: args =>
+    match handleState st fn args with
+    | some (st', reply) => out.putStrLn reply; loop h out st'
+    | none => out.putStrLn (handle fn args); loop h out st
 
 end BR.Driver
 
 def main : IO Unit := do
   let stdin ← IO.getStdin
   let stdout ← IO.getStdout
-  BR.Driver.loop stdin stdout
+  BR.Driver.loop stdin stdout {}
